@@ -10,12 +10,18 @@ reg = json.load(open(common.VERIF / "harness" / "registry.json"))
 ok = True
 models = sorted({m for ms in reg.values() for m in ms})
 targets = [f"theories/Properties/{pid}.vo" for pid in reg]
+try:
+    extra = json.load(open(common.VERIF / "harness" / "registry_extra.json"))
+except OSError:
+    extra = {}
+targets += [f"theories/Properties/{n}.vo" for pid, ns in extra.items() if pid in reg for n in ns]
 r = common.build("SETUP", models=tuple(models), extra_targets=tuple(targets), timeout=3000)
 print(r.log[-2000:])
 if not r.ok:
     print("SETUP FAILED at", r.failed_file)
     ok = False
-bad = common.scan_forbidden(common.dep_closure([f"Properties/{pid}.v" for pid in reg]))
+bad = common.scan_forbidden(common.dep_closure([f"Properties/{pid}.v" for pid in reg]
+                                               + [f"Properties/{n}.v" for ns in extra.values() for n in ns]))
 if bad:
     print("forbidden constructs:", bad)
     ok = False
